@@ -353,6 +353,7 @@ func runC15(e *Engine, r *Report) {
 		r.floor("MPT-chunk-reject-drops", n, 1)
 	}
 	ruleChunkPayloadFresh(e, r)
+	ruleChunkDescribesSnapshot(e, r)
 }
 
 // methodNamed: the call is a (static or interface) call of a method/function named name.
